@@ -101,9 +101,9 @@ class Replayer:
 
     def judge(self, fn, clause, got_ok, got, exact, *, kappa=1.0, scale=None, sig=None, replay=None):
         """One comparison of an implementation value with the exact expected value."""
-        name = f"{fn}:{clause}"
         s = dict(fn=fn, clause=clause)
         s.update(sig or {})
+        name = f"{fn}:{clause}" + (f"[{s['form']},{s['input']}]" if "input" in s else "")
         if not got_ok:
             s["clause"] = f"{clause}:raised:{got}"
             self.chk.violation(s, f"{fn} raised {got} where the specification expects a value ({clause})", replay)
@@ -265,7 +265,7 @@ class Replayer:
         regular = c["rank"] == 3
         kappa = qf(c["kappa"]) if regular else 1.0
         sig = dict(form=c["side"], input="nonsingular" if regular else "singular")
-        rep = dict(M=c["M"], left=left, rank=c["rank"], expected_orthogonal=c["R"] if regular else "not unique", expected_stretch=c["S"], kappa=c["kappa"])
+        rep = dict(kind="polar", M_float=M.tolist(), M=c["M"], left=left, rank=c["rank"], expected_orthogonal=c["R"] if regular else "not unique", expected_stretch=c["S"], kappa=c["kappa"])
         self.chk.count(("polar", c["side"], json.dumps(c["M"])))
         if kappa > 1e6:
             self.chk.skip("polar: stretch conditioning factor above 1e6")
@@ -432,6 +432,28 @@ def judge_measures(events, d, name="measures"):
     return rej, res
 
 
+# --------------------------------------------------------------------------- replay of a stored violation
+def replay(obj):
+    """./check C11 --replay <path>: re-run the stored input against the current tree."""
+    quiet_pydrex()
+    from pydrex import tensors as T
+
+    r = obj.get("replay") or {}
+    if r.get("kind") == "polar":
+        M = np.array(r["M_float"])
+        ok, out = call(T.polar_decompose, M, r["left"])
+        if not ok:
+            print(f"polar_decompose(M, left={r['left']}) raised {out}; rank(M) = {r['rank']}")
+            return 1
+        Rg, Sg = np.asarray(out[0]), np.asarray(out[1])
+        prod = Sg @ Rg if r["left"] else Rg @ Sg
+        orth, pr = float(np.abs(Rg.T @ Rg - np.eye(3)).max()), float(np.abs(prod - M).max())
+        print(f"polar_decompose(M, left={r['left']}): |R'R - I| = {orth:.3e}, |product - M| = {pr:.3e}; rank(M) = {r['rank']}")
+        return 1 if max(orth, pr) > 1e-9 else 0
+    print("stored case (inputs and exact expected values above); re-run ./check C11 to re-judge it")
+    return 0
+
+
 # --------------------------------------------------------------------------- main
 def _perturb(a, path, leaf):
     """Deep copy of case `a` with the rational leaf at `path` replaced by `leaf`."""
@@ -452,7 +474,7 @@ def main(tier):
         ("TensorsBasis", "TensorsBasis" + sfx, 2, "21 basis matrices + triclinic family: round trips, contractions; isometry on all 21x21 pairs in Q(sqrt2)"),
         ("TensorsProj", "TensorsProj" + sfx, 4, "projectors: idempotent, self-adjoint (21x21), nested, rank, = point-group average, hexagonal range"),
         ("TensorsMat", "TensorsMat" + sfx, 3, "invariants on P diag(l) P^-1 (Cayley-Hamilton); polar R.U / V.R with PD and singular PSD stretches"),
-        ("TensorsRot", "TensorsRot" + sfx, 6 if quick else 12, "basis x 40 exact rotations: law, norm, symmetries; group action on " + ("40 x 4" if quick else "all 40 x 40") + " pairs; triclinic x generic rotations"),
+        ("TensorsRot", "TensorsRot" + sfx, 6 if quick else 12, "basis x 40 exact rotations: law, norm, symmetries; group action on " + ("40 x 3" if quick else "all 40 x 40") + " pairs; triclinic x generic rotations"),
     ]
     results = {}
     with cf.ThreadPoolExecutor(max_workers=len(models) + 1) as pool:
@@ -471,13 +493,16 @@ def main(tier):
         negres = neg.result()
     chk.control("tlc-lemma-rejects-permuted-vector-table", negres.violated in ("WeightLemma", "VecTableLemma"), f"TensorsIdx_neg: violated={negres.violated}")
     cases = {m: parse_printed_json(r.output, "CASE") for m, r in results.items()}
-    expect = {"TensorsIdx": 117, "TensorsBasis": 42 if quick else 231}
-    for m, n in expect.items():
-        if len(cases[m]) != n:
-            raise MachineryError(f"{m} emitted {len(cases[m])} cases, expected {n}")
-    for m in ("TensorsRot", "TensorsProj", "TensorsMat"):
-        if len(cases[m]) < 40:
-            raise MachineryError(f"{m} emitted only {len(cases[m])} cases")
+    # every case state must have produced exactly one parsable CASE line (no line lost between workers):
+    # emitted = distinct states - seed (initial) states - lemma-only states
+    lemma_only = {"TensorsBasis": 441, "TensorsProj": 441 + 21 + 1}
+    for m, r in results.items():
+        ini = re.search(r"Finished computing initial states: (\d+) distinct state", r.output)
+        want = r.distinct - int(ini.group(1)) - lemma_only.get(m, 0) if ini else -1
+        if len(cases[m]) != want or want < 40:
+            raise MachineryError(f"{m} emitted {len(cases[m])} cases, its state graph has {want} case states")
+    if len(cases["TensorsIdx"]) != 117 or sum(c["kind"] == "single" for c in cases["TensorsRot"]) != 21 * 40:
+        raise MachineryError("index or rotation tables incomplete")
 
     rp = Replayer(T, chk)
     # ---- 1. index maps
